@@ -7,7 +7,7 @@ func init() {
 		Rule: "one evaluation = one decode of one strict prefix (crash point) of a generated valid file under one seeded delivery schedule; " +
 			"per file every cut 0..len-1 is enumerated (ASCII bodies: every token boundary), files and delivery schedules are sampled from VERIF_SEED; " +
 			"distinct_nontrivial = number of distinct generated files (by content hash) that were readable complete, had >=1 cut, and whose whole cut space was decoded",
-		Scenarios: []ScenCfg{{Name: "truncated-files", Chunk: 16, QuickRuns: 480, QuickS: 60, ThoroughRuns: 40000, ThoroughS: 900, Procs: 2, DetQuick: 16, DetThorough: 80}},
+		Scenarios: []ScenCfg{{Name: "truncated-files", Chunk: 32, QuickRuns: 4800, QuickS: 60, ThoroughRuns: 40000, ThoroughS: 900, Procs: 2, DetQuick: 16, DetThorough: 80}},
 		Assumptions: []string{
 			"a Go panic raised by a decoder on a truncated input is classed as a (loud) rejection, counted separately, not as a violation",
 			"ASCII bodies are cut at token boundaries only, as the property states; binary data and ASCII headers at every byte",
@@ -28,7 +28,7 @@ func init() {
 		Rule: "one evaluation = one simulated execution: 2-4 client tasks issue 2-6 UpdateParameter/ParameterData/Artifact calls each on a real graph.Instance over a generated multi-level graph, " +
 			"interleaved by the seeded scheduler (policies: random, PCT, round-robin, starve-one, newest-first, sticky) at the hooks around the producer lock and inside every node processor, under the race detector; " +
 			"the recorded history is checked by porcupine against a sequential model. distinct_nontrivial = distinct schedule signatures (hash of the (step, task, site) sequence) in which operations of two clients overlapped in time",
-		Scenarios: []ScenCfg{{Name: "graph-clients", Race: true, Chunk: 40, QuickRuns: 2400, QuickS: 75, ThoroughRuns: 400000, ThoroughS: 1200, Procs: 4, DetQuick: 24, DetThorough: 120}},
+		Scenarios: []ScenCfg{{Name: "graph-clients", Race: true, Chunk: 80, QuickRuns: 16000, QuickS: 60, ThoroughRuns: 400000, ThoroughS: 1200, Procs: 4, DetQuick: 24, DetThorough: 120}},
 		Assumptions: []string{
 			"schedules are explored at the granularity of the yield points (around the producer lock, between two input reads of every harness processor, around the client calls); finer-grained atomicity violations surface only through the race detector",
 			"race detection is ThreadSanitizer's happens-before analysis over the executed schedule",
@@ -49,7 +49,7 @@ func init() {
 		Rule: "one evaluation = one operation of a generated history (update a source, re-wire a scalar input, append to / remove from an array input, read a node, look at State/Version) over a generated DAG of real nodes.Struct nodes (<=8) on <=5 sources (parameter.Value and nodes.ValueNode); " +
 			"after every operation the real graph is compared with a from-scratch evaluator and an execution/version model; the order in which a node enumerates its dependencies (Go map order in the real program) is a seeded choice. " +
 			"distinct_nontrivial = distinct histories (hash of the operation sequence with results) that contain an update or re-wiring followed by a read of a node at distance >= 2 from its sources",
-		Scenarios: []ScenCfg{{Name: "node-histories", Chunk: 2000, QuickRuns: 60000, QuickS: 60, ThoroughRuns: 20000000, ThoroughS: 900, Procs: 2, DetQuick: 200, DetThorough: 2000}},
+		Scenarios: []ScenCfg{{Name: "node-histories", Chunk: 5000, QuickRuns: 600000, QuickS: 60, ThoroughRuns: 20000000, ThoroughS: 900, Procs: 2, DetQuick: 200, DetThorough: 2000}},
 		Assumptions: []string{
 			"minimal recomputation is read permissively: an update call counts as a change even if the value is equal, and re-wiring an upstream node counts as a change for every node downstream",
 			"harness processors read every connected input and combine them injectively, so freshness is decidable from the output string",
@@ -95,7 +95,7 @@ func init() {
 		Level: "exploration",
 		Rule: "one evaluation = one save+restart inside a generated edit history (5-60 operations: create node of any registered type, connect type-compatible ports incl. bursts on array ports, disconnect, parameter value/name/description for every parameter type, producers, metadata set/delete, delete unused nodes) executed on a real generator.App; at every restart only the bytes of App.Schema() survive, are loaded into fresh Apps, and re-saved bytes, structure (through the public schema) and artifacts of deterministic producers are compared; the history continues on the reloaded App. Some histories start from the graph shipped in examples/graphs. " +
 			"distinct_nontrivial = distinct histories (hash of the operation log) containing at least one restart after at least one wiring edit, or starting from a shipped graph",
-		Scenarios: []ScenCfg{{Name: "edit-save-restart", Chunk: 100, QuickRuns: 6000, QuickS: 60, ThoroughRuns: 4000000, ThoroughS: 900, Procs: 2, DetQuick: 60, DetThorough: 400}},
+		Scenarios: []ScenCfg{{Name: "edit-save-restart", Chunk: 100, QuickRuns: 12000, QuickS: 60, ThoroughRuns: 4000000, ThoroughS: 900, Procs: 2, DetQuick: 60, DetThorough: 400}},
 		Assumptions: []string{
 			"execution counters (version) are not part of the saved graph and are excluded from the comparison",
 			"artifacts are compared only for producers whose whole cone consists of node types that are deterministic functions of their inputs (nodes/experimental noise/texture nodes and the glTF writer are excluded by type) and whose content agrees between two independent loads",
